@@ -409,6 +409,30 @@ def run(ctx):
             f = 'exception-%s: %s' % (c['op'], type(ex).__name__ + ':' + str(ex)[:100])
         if f:
             ctx.report(c, 'failure', f)
+    # eigh / svd on data far below (and above) the default threshold with the documented keyword, one and several directions,
+    # on every run
+    for kind in ('eigh', 'svd'):
+        for P_ in (1, 2, 3):
+            for sc in (-33, 20):
+                c = None
+                for _ in range(200):
+                    c = make_case(rng, ctx.tier)
+                    if c['op'] == kind and c['P'] == min(P_, 2) and c['D'] >= 2 and 'out_seed' not in c:
+                        break
+                c['scale_log2'] = sc
+                if P_ == 3:
+                    x_ = np.array(c['x'])
+                    c['x'] = np.concatenate([x_, x_[:, :1] * 1.0], axis=1)
+                    c['P'] = x_.shape[1] + 1
+                    c.pop('rankdef_dir', None)
+                ctx.evaluations += 1
+                ctx.count('threshold-keyword=' + kind)
+                try:
+                    f = check(c)
+                except Exception as ex:
+                    f = 'exception-%s: %s' % (c['op'], type(ex).__name__ + ':' + str(ex)[:100])
+                if f:
+                    ctx.report(c, 'failure', f)
     for i in range(300 if ctx.tier == 'quick' else 4000):
         c = make_case(rng, ctx.tier)
         ctx.evaluations += 1
